@@ -76,4 +76,10 @@ theorem rpu_file_no_panic (c : Nat) (file : Bytes)
     (hnp : ∀ d, d <:+: file → RpuFile.parseNalu d ≠ .panic) : RpuFile.parseRpuFile c file ≠ .panic :=
   RpuFile.parseRpuFile_no_panic c file hnp
 
+/-- the ST 2094-10 ITU-T T.35 SEI parser (CM data with its pivot / polynomial / MMR / NLQ loops, DM data with a
+CM v2.9 container): panics only at the third-party exp-Golomb sites -/
+theorem st2094_no_panic (data : Bytes)
+    (hg : ∀ t, St2094.trim data = .ok t → Good (bytesToBits (Esc.unescape t))) : St2094.parse data ≠ .panic :=
+  St2094.parse_no_panic data hg
+
 end Dovi.C08
